@@ -913,7 +913,7 @@ func c08KEClient(r *simcore.Run, tp *simcore.Tape) map[string]any {
 		}
 	})
 	cl := &client.IPClient{Log: quietLog()}
-	Root.ConfigureIPClientNTS(cl, fmt.Sprintf("%s:%d", keHost, kePort), false, quietLog())
+	configureIPClientNTS(cl, fmt.Sprintf("%s:%d", keHost, kePort), quietLog())
 	cl.Auth.NTSKEFetcher.TLSConfig.RootCAs = pool
 	w.goSafe("driver", func() {
 		defer r.Finish()
